@@ -92,15 +92,8 @@ func (l *poolListener) InsertMomentum(d *nom.DetailedMomentum) {
 			Tup(u.Address.String(), where, M{"event_momentum": U64(d.Momentum.Height), "frontier": U64(fm.Height), "applied": applied,
 				"confirmed_before": I64(int64(len(b.confirmed))), "confirmed_now": I64(int64(len(a.confirmed))),
 				"pooled_before": I64(int64(len(b.pool))), "pooled_now": I64(int64(len(a.pool))), "expected": I64(int64(len(want)))}))
-		// the pool's frontier store is the same chain
-		fs := r.nd.Ch.GetFrontierAccountStore(u.Address).Identifier()
-		top := types.HashHeight{}
-		if n := len(a.pool); n > 0 {
-			top = a.pool[n-1].Identifier()
-		} else if n := len(a.confirmed); n > 0 {
-			top = a.confirmed[n-1].Identifier()
-		}
-		r.out.Oracle(fs == top, "pool-frontier-store-is-top-of-the-chain", Tup(u.Address.String(), where, U64(fs.Height), U64(top.Height)))
+		// the rest of the clause, against the store as it is at this moment (pillarrace.go)
+		r.clauseNow(addr, a, where)
 	}
 }
 func (l *poolListener) DeleteMomentum(*nom.DetailedMomentum) { l.deletes++ }
